@@ -625,3 +625,57 @@ def contracts():
     c = _c08.sync_refs_contract(2)
     c.prop = PROP
     return _c05_base_sync() + [c]
+
+
+# ---------------------------------------------------------------------------------------------
+# concrete probe: an update that fails — at any position among its keys — leaves every Event of the
+# call switched off and self-resetting
+# ---------------------------------------------------------------------------------------------
+EVENT_AFTER_FAILED_UPDATE_REPLAY = '''import sys, os, itertools
+sys.path.insert(0, os.environ.get('PYVC_REPO', '/repo'))
+import param
+bad = []
+class P(param.Parameterized):
+    x = param.Number(default=0, bounds=(0, 1))
+    ev = param.Event()
+    ev2 = param.Event()
+BADS = {'refused value': ('x', 5), 'unknown name': ('nosuch', 1), 'refused event value': ('ev2', 'no')}
+for (why, (bk, bv)), pos, ctx in itertools.product(BADS.items(), (0, 1, 2), ('plain', 'batch', 'watcher raises')):
+    items = [('ev', True), ('ev2', True)] if bk != 'ev2' else [('ev', True), ('x', 1)]
+    items.insert(pos, (bk, bv))
+    p = P()
+    calls = []
+    if ctx == 'watcher raises':
+        items = [kv for kv in items if kv[0] != bk]
+        def boom(*e): raise RuntimeError('watcher')
+        p.param.watch(boom, ['ev'], precedence=5)
+    p.param.watch(lambda *e: calls.append([x.name for x in e]), ['ev', 'ev2'], precedence=1)
+    try:
+        if ctx == 'batch':
+            with param.parameterized.batch_call_watchers(p):
+                p.param.update(dict(items))
+        else:
+            p.param.update(dict(items))
+        failed = False
+    except Exception:
+        failed = True
+    label = 'update(%s) [%s%s]' % (', '.join('%s=%r' % kv for kv in items), why if ctx != 'watcher raises' else 'a watcher raises', ', inside a batch' if ctx == 'batch' else '')
+    if not failed:
+        bad.append(label + ': did not fail'); continue
+    for name in ('ev', 'ev2'):
+        if getattr(p, name) is not False:
+            bad.append('%s: afterwards %s is %r' % (label, name, getattr(p, name)))
+        if p.param[name]._mode != 'set-reset':
+            bad.append('%s: afterwards %s is no longer self-resetting (_mode == %r)' % (label, name, p.param[name]._mode))
+    del calls[:]
+    if ctx == 'watcher raises':
+        continue
+    p.ev2 = True; p.ev2 = True
+    if len(calls) != 2 or p.ev2 is not False:
+        bad.append('%s: afterwards two triggers of ev2 run its watcher %d time(s), ev2 == %r' % (label, len(calls), p.ev2))
+if bad:
+    print('REPRODUCED: ' + bad[0]); sys.exit(1)
+print('NOT-REPRODUCED'); sys.exit(0)
+'''
+
+PROBES = PROBES + [("after an update that fails at any of its keys every Event of the call is off and self-resetting", EVENT_AFTER_FAILED_UPDATE_REPLAY)]
